@@ -229,7 +229,7 @@ func (g *Gen) loadContracts() error {
 	}
 	for _, c := range g.all {
 		switch c.Kind {
-		case "spec":
+		case "spec", "uninterp":
 			g.specs[c.Key] = c
 		case "func", "iface":
 			g.contracts[c.fullKey()] = c
@@ -339,6 +339,7 @@ func (g *Gen) verifyFunc(ct *Contract) (fg *FnGen, err error) {
 		t := Const("p_"+p.Name(), g.ti.sortOf(p.Type()))
 		fr.vals[p] = t
 		fg.assumeValid(t, p.Type(), True)
+		fg.assumeOld(t, p.Type())
 		fg.paramEnv[p.Name()] = CVal{T: t, Ty: p.Type()}
 		fg.inputs = append(fg.inputs, InputVar{Name: p.Name(), GoType: types.TypeString(p.Type(), nil), Term: t})
 	}
@@ -385,6 +386,67 @@ func (g *Gen) verifyFunc(ct *Contract) (fg *FnGen, err error) {
 			// outputs for replay: merged results
 		}
 	}
+	if ct.Pure || len(ct.Modifies) > 0 {
+		fg.frameObligations(fr, ct)
+	}
+	// refinement of interface contracts: the implementation's results satisfy the interface method's ensures
+	for _, rk := range ct.Refines {
+		ic := g.contracts[rk]
+		if ic == nil {
+			ic = g.contracts[ct.Pkg+"."+rk]
+		}
+		if ic == nil || ic.Kind != "iface" {
+			fg.bindFailure("refines:"+rk, fmt.Errorf("no interface contract %s", rk), fn.Pos())
+			continue
+		}
+		if len(fn.Params) == 0 {
+			continue
+		}
+		for _, e := range ic.Ensures {
+			var goals []*Term
+			bad := false
+			for _, rs := range fr.rets {
+				penv := fg.baseEnv(fr, rs.state)
+				// rebind: interface parameter names -> implementation parameters (positional, after the receiver)
+				vars := map[string]CVal{}
+				recvT := fr.vals[fn.Params[0]]
+				vars["recv"] = CVal{T: fg.makeIface(recvT, fn.Params[0].Type()), Ty: nil}
+				names := ic.ParamNames
+				if len(names) == len(fn.Params) {
+					names = names[1:]
+				}
+				for i, n := range names {
+					if i+1 < len(fn.Params) {
+						p := fn.Params[i+1]
+						vars[n] = CVal{T: fr.vals[p], Ty: p.Type()}
+					}
+				}
+				for i, rn := range ic.Results {
+					if i < len(rs.results) {
+						vars[rn] = CVal{T: rs.results[i], Ty: fn.Signature.Results().At(i).Type()}
+					}
+				}
+				penv.vars = vars
+				if penv.old != nil {
+					penv.old = &Env{fg: fg, vars: vars, st: fg.initState}
+				}
+				v, err2 := penv.evalBool(e.Expr)
+				if err2 != nil {
+					fg.bindFailure("refines:"+rk+":"+e.Label, err2, fn.Pos())
+					bad = true
+					break
+				}
+				goals = append(goals, Implies(rs.reach, v))
+			}
+			if bad {
+				continue
+			}
+			o := fg.addObl("refines", "refines:"+rk+":"+e.Label, True, And(goals...), fn.Pos(), e.Src)
+			if o != nil {
+				o.clause = e
+			}
+		}
+	}
 	// vacuity: the preconditions (with parameter validity) must be satisfiable, and each loop invariant reachable
 	if len(ct.Requires) > 0 {
 		o := &Obligation{Name: fg.name + "#vacuity:requires", Fn: fg.name, Kind: "vacuity", Assumes: append([]*Term{}, fg.assumes[:nreq]...),
@@ -426,6 +488,7 @@ func (g *Gen) verifyLemma(ct *Contract) (fg *FnGen, err error) {
 		t := Const("l_"+pn, srt)
 		if ty != nil {
 			fg.assumeValid(t, ty, True)
+			fg.assumeOld(t, ty)
 		}
 		env.vars[pn] = CVal{T: t, Ty: ty}
 		fg.inputs = append(fg.inputs, InputVar{Name: pn, GoType: ct.ParamTypes[i], Term: t})
@@ -455,6 +518,9 @@ func (g *Gen) verifyLemma(ct *Contract) (fg *FnGen, err error) {
 				continue
 			}
 			fname := call.Args[0].String()
+			if s.FnKey != "" {
+				fname = s.FnKey
+			}
 			var target *ssa.Function
 			if p := g.pkgByPath[ct.Pkg]; p != nil {
 				target = g.fnIndex[(&Contract{Pkg: ct.Pkg, Key: fname}).fullKey()]
